@@ -6,11 +6,15 @@ EXPLANATION = ("Three layers on the real code: (1) pairing units (_build_scopes_
                "arbitrary ordered/nested ranges with unbounded endpoints; (2) token-soup BMC of scan_file with every C05 clause asserted on the result; (3) _analyze_file with a symbolic measurement list: loc == sum of values.")
 
 
+AMBIG = ["assumed:ValueError:arrow-pattern ambiguity (C03/C15 known finding)"]
+
+
 def run(ctx):
     ctx.functions += ["scope_utils._build_scopes_from_headers_and_blocks/_find_scope_blocks_indices/_get_nearest_block/fold_scopes/filter_scopes_nested_functions/unfold_scopes/_scope_tokens", "Scanner.scan_file", "Scanner._analyze_file", "Header.sort_headers", "TokenRange.*"]
     ctx.bounds["pairing units"] = "<= 2 header ranges and <= 3 block ranges, endpoints any integers (unbounded), every ordering and nesting the solver can choose"
     ctx.assumptions += ["upstream contract for the pairing units: headers non-empty, ordered, disjoint; blocks >= 2 tokens, sorted by opener, properly nested or disjoint; a header never straddles a block boundary",
                         "S-lex as in C03 for the soups"]
+    ctx.assumptions.append("inputs on which the analysis raises the listed arrow-pattern ambiguity error (C15 / C03 known finding) yield no measurements and are assumed away here")
     ctx.outside += ["soups longer than N", "more headers/blocks per pairing query"]
     T = 240 if ctx.quick() else 900
     jobs = []
@@ -21,6 +25,6 @@ def run(ctx):
     jobs.append(Job("c05.py", "h_loc", {}, T, 30, tag="k<=3"))
     # quick: one language per block style / header style (C, C++ and C# share all pairing code; TypeScript shares JavaScript's arrow pattern); thorough: all seven, N=3
     plan = {l: 2 for l in ("Python", "JavaScript")} if ctx.quick() else {l: 3 for l in ("Python", "C", "JavaScript", "Java", "TypeScript", "Cpp", "CSharp")}
-    jobs += soup_common.soup_jobs(ctx, "wellformed", plan, framed=True)
-    jobs += soup_common.mutation_jobs(ctx, ["two", "stmt-mix", "nested-middle", "class-methods"] if ctx.quick() else None)
+    jobs += soup_common.soup_jobs(ctx, "wellformed", plan, framed=True, tolerate=AMBIG)
+    jobs += soup_common.mutation_jobs(ctx, ["two", "stmt-mix", "nested-middle", "class-methods"] if ctx.quick() else None, tolerate=AMBIG)
     ctx.run_xh(jobs)
